@@ -46,6 +46,38 @@ pub fn weight_lattice(n: usize) -> Vec<Vec<f64>> {
     ws
 }
 
+/// weight vectors for sets of more than four voices (the lattice would explode): vertices, equal weights, a ramp, weight on
+/// the last voices only, one on every ninth/fifth voice, and extrapolations with negative components in the tail
+pub fn many_weights(n: usize) -> Vec<Vec<f64>> {
+    let mut ws: Vec<Vec<f64>> = Vec::new();
+    for k in [0, n - 1, n / 2] {
+        let mut v = vec![0.0; n];
+        v[k] = 1.0;
+        ws.push(v);
+    }
+    ws.push(vec![1.0 / n as f64; n]);
+    let tri = (n * (n + 1) / 2) as f64;
+    ws.push((0..n).map(|i| (i + 1) as f64 / tri).collect());
+    ws.push((0..n).map(|i| (n - i) as f64 / tri).collect());
+    let mut tail = vec![0.0; n];
+    tail[n - 1] = 0.75;
+    tail[n - 2] = 0.25;
+    ws.push(tail);
+    let mut alt = vec![0.0; n];
+    alt[0] = 1.5;
+    alt[n - 1] = -0.75;
+    alt[n - 2] = 0.5;
+    alt[n / 2] = -0.25;
+    ws.push(alt);
+    // dyadic weights, all different: 1/2, 1/4, …, the last one repeated so that they sum to 1 exactly
+    let mut dy: Vec<f64> = (0..n).map(|i| 0.5f64.powi(i as i32 + 1)).collect();
+    dy[n - 1] = dy[n - 2];
+    ws.push(dy.clone());
+    dy.reverse();
+    ws.push(dy);
+    ws
+}
+
 fn set_all(e: &mut Engine, nstream: usize, q: &[Option<&Vec<f64>>], eq: &[f64]) -> Result<(), String> {
     let iw = e.condition.get_interporation_weight_mut();
     iw.set_duration(q[0].map(|v| &v[..]).unwrap_or(eq)).map_err(|e| e.to_string())?;
@@ -66,7 +98,7 @@ struct SetCase {
 
 pub fn run(tier: Tier) -> i32 {
     let rep = Report::new("C10", tier, "model_checking");
-    rep.set_rule("SCOPE: voice sets {V0; V0+P1; V0+P1+P2; V0+P1+P2+P3; V0+V0; generated pairs/triples with different trees incl. coarse-then-fine and fine-then-coarse orders} x weight vectors on the quarter-step simplex lattice incl. vertices and components in [-1/4,3/2], plus far extrapolations such as (2.5,-1.5), (1.25,1.25,-1.5), (1,.5,-.5), (.5,0,.5) x which of the 1+2*streams quantities (duration, parameter[i], gv[i]) deviate from equal weights (<= 2 at a time, the second with the reversed vector; plus whole groups moved together: duration+parameters, all GV, all parameters, all but duration, all) x labels (cover set Lambda + corpus windows); oracle: Models::duration / model_stream(i).stream / .gv equal sum_v w_v x that voice's own Model::get_parameter (rel 1e-12 incl. voicing weight); weights (1,0,..) reproduce the single-voice parameters and waveform bit-exactly; identical voices reproduce the single voice (parameters 1e-12, waveform 1e-6 of peak); distinct = (voice set, weight vector, deviating quantities); non-trivial = more than one voice");
+    rep.set_rule("SCOPE: voice sets {V0; V0+P1; V0+P1+P2; V0+P1+P2+P3; V0+V0; generated pairs/triples with different trees incl. coarse-then-fine and fine-then-coarse orders; sets of 5..10 generated voices (thorough: up to 33) with ten weight vectors each (vertices, equal, ramps, tail-only, extrapolating, dyadic)} x weight vectors on the quarter-step simplex lattice incl. vertices and components in [-1/4,3/2], plus far extrapolations such as (2.5,-1.5), (1.25,1.25,-1.5), (1,.5,-.5), (.5,0,.5) x which of the 1+2*streams quantities (duration, parameter[i], gv[i]) deviate from equal weights (<= 2 at a time, the second with the reversed vector; plus whole groups moved together: duration+parameters, all GV, all parameters, all but duration, all) x labels (cover set Lambda + corpus windows); oracle: Models::duration / model_stream(i).stream / .gv equal sum_v w_v x that voice's own Model::get_parameter (rel 1e-12 incl. voicing weight); weights (1,0,..) reproduce the single-voice parameters and waveform bit-exactly; identical voices reproduce the single voice (parameters 1e-12, waveform 1e-6 of peak); distinct = (voice set, weight vector, deviating quantities); non-trivial = more than one voice");
     rep.assume("weights on the quarter-step lattice; each voice's own tree selection is taken from Model::get_parameter (validated against the independent reader by C04)");
     let corpus = labels::corpus();
     let lam = labels::lambda(&corpus);
@@ -96,6 +128,12 @@ pub fn run(tier: Tier) -> i32 {
         sets.push(SetCase { name: "G fine + coarse".into(), voices: vec![fine0.clone(), coarse.clone()], nstream: 3, nstate: 2, identical: false });
         sets.push(SetCase { name: "G coarse + fine(other questions) + fine".into(), voices: vec![coarse, fine1, fine0], nstream: 3, nstate: 2, identical: false });
     }
+    // beyond the stated sets: 5..10 (thorough: 17, 33) generated voices at once
+    for nv in tier.pick(vec![5usize, 6, 7, 8, 9, 10], vec![5, 6, 7, 8, 9, 10, 12, 13, 16, 17, 33]) {
+        let cfg = GenCfg { gv: true, nstate: 2, ..GenCfg::default() };
+        let voices: Vec<Arc<Voice>> = (0..nv).map(|v| Arc::new(load_voice_bytes(&GenCfg { variant: v as u32, ..cfg.clone() }.bytes()).expect("generated voice"))).collect();
+        sets.push(SetCase { name: format!("{} x{} variants", cfg.describe(), nv), voices, nstream: cfg.ns, nstate: cfg.nstate, identical: false });
+    }
     let worst = Mutex::new(0.0f64);
     let nontriv = AtomicU64::new(0);
     let maxdev = tier.pick(2usize, 2usize);
@@ -110,7 +148,7 @@ pub fn run(tier: Tier) -> i32 {
                 continue;
             }
         };
-        let mut ws = weight_lattice(nv);
+        let mut ws = if nv <= 4 { weight_lattice(nv) } else { many_weights(nv) };
         if tier == Tier::Quick && ws.len() > 40 {
             // all vertices + edges + outside points + a stride through the interior
             let keep: Vec<Vec<f64>> = ws.iter().enumerate().filter(|(i, w)| w.iter().filter(|x| **x != 0.0).count() <= 2 && i % 2 == 0 || i % 9 == 0).map(|(_, w)| w.clone()).collect();
